@@ -275,8 +275,29 @@ def wide_shapes():
                            pos("wpos", "optional", "int", "Wide")])]
 
 
+def spelling_shapes():
+    """Attribute TEXTS with `_` and uppercase letters: the derive normalises them (lowercase, `_` -> `-`) into
+    the literal the parser matches and the help shows; `long` / `short` below are those literals (= the
+    grammar, the TLA+ data), `long_attr` / `short_attr` the text written in the source."""
+    def raw(f, long_attr=None, short_attr=None):
+        if long_attr:
+            f["long_attr"] = long_attr
+        if short_attr:
+            f["short_attr"] = short_attr
+        return f
+    return [
+        st("Spelling", [raw(opt("dry_run", "optional", "bool", "bool", long="dry-run", short="d"), "dry_run", "D"),
+                        raw(opt("max_depth", "optional", "int", "i32", long="max-depth"), "Max_Depth"),
+                        raw(opt("a_b_c_d", "repeated", "str", STR, long="out-put-dir", short="o"), "Out_put-Dir", "O"),
+                        raw(opt("x_y", "required", "unixstr", USTR, long="x-y-z"), "X_Y_Z")],
+           sub("cmd", "SpellingCmd", True, [
+               ("Go", None),
+               ("Deep", st("SpellingDeep", [raw(opt("keep_going", "optional", "bool", "bool", long="keep-going", short="k"), "KEEP_going", "K")]))])),
+    ]
+
+
 GRID_FROM = len(SHAPES) + 1      # 1-based index of the first grid shape (smaller bounds from here on)
-SHAPES = SHAPES + grid_shapes() + decor_shapes() + help_clash_shapes() + sub_position_shapes() + wide_shapes()
+SHAPES = SHAPES + grid_shapes() + decor_shapes() + help_clash_shapes() + sub_position_shapes() + wide_shapes() + spelling_shapes()
 decorate(SHAPES)
 
 # ---------------------------------------------------------------------------------------------
@@ -445,9 +466,9 @@ def emit_rust_struct(s, path, top, out, structs):
             out.append("    " + d)
         attrs = []
         if f["short"]:
-            attrs.append('short = "%s"' % f["short"])
+            attrs.append('short = "%s"' % f.get("short_attr", f["short"]))
         if f["long"]:
-            attrs.append('long = "%s"' % f["long"])
+            attrs.append('long = "%s"' % f.get("long_attr", f["long"]))
         if attrs:
             out.append("    #[cli(%s)]" % ", ".join(attrs))
         for d in f.get("decor_after", []):
